@@ -12,7 +12,7 @@
 #include "cholesky_solve.h"   // from $(REPO)/src/fitter
 static vf::Harness* H;
 
-struct Config { int W, nalpha, variant; };
+struct Config { int W, nalpha, variant; int spurious; };
 static const char* VN[] = {"improves-at-alpha=1", "improves-in-the-middle", "never-improves(bind-and-retry)"};
 
 // ---- problem data: A = I so that the residual is |z-b|^2 - |b|^2 and the first improving step is controlled through b
@@ -65,7 +65,7 @@ static Exec execute(const Config& cf, const std::vector<int>& prefix) {
   if (pid == 0) {
     close(fd[0]);
     if (!freopen(errpath.c_str(), "w", stderr)) _exit(8);
-    setenv("OMP_NUM_THREADS", std::to_string(cf.W).c_str(), 1); unsetenv("GOTO_NUM_THREADS");
+    setenv("OMP_NUM_THREADS", std::to_string(cf.W).c_str(), 1); unsetenv("GOTO_NUM_THREADS"); setenv("MS_SPURIOUS", std::to_string(cf.spurious).c_str(), 1);
     Problem P; build(P, cf); g_P = &P;
     ms_begin(prefix.data(), prefix.size(), fd[1], state_cb, 20000);
     int feasible = walk_descents(P.A, P.b, P.x, P.xF, P.F.data(), &P.nF, P.H1.data(), &P.nH1, &P.residual, &P.residual_calcs, 0, &P.c);
@@ -95,16 +95,16 @@ static Exec execute(const Config& cf, const std::vector<int>& prefix) {
 
 static std::string sched_str(const Exec& e) {   // human-readable schedule: which thread performed which op at each choice point
   std::string s;
-  for (size_t i = 0; i < e.recs.size() && i < 400; i++) { const ms_rec& r = e.recs[i]; s += vf::fmt("%sT%d:%s", i ? " " : "", r.en[r.chosen], ms_opname(r.ops[r.chosen])); }
+  for (size_t i = 0; i < e.recs.size() && i < 400; i++) { const ms_rec& r = e.recs[i]; s += vf::fmt("%sT%d:%s", i ? " " : "", r.en[r.chosen] & 0x7f, ms_opname(r.ops[r.chosen])); }
   return s;
 }
 static std::string choices_str(const Exec& e) { std::vector<int> c; for (auto& r : e.recs) c.push_back(r.chosen); return vf::vecstr(c); }
 
 static void explore(const Config& cf, uint64_t max_exec) {
-  std::string ck = vf::fmt("W=%d:n_alpha=%d:%s", cf.W, cf.nalpha, VN[cf.variant]);
+  std::string ck = vf::fmt("W=%d:n_alpha=%d:%s%s", cf.W, cf.nalpha, VN[cf.variant], cf.spurious ? ":1-spurious-wakeup" : "");
   H->hint(ck);
   // sequential reference: one worker, non-preemptive default schedule
-  Config ref = cf; ref.W = 1;
+  Config ref = cf; ref.W = 1; ref.spurious = 0;
   Exec R = execute(ref, {});
   if (R.r.outcome != MS_COMPLETE || R.out.empty()) { H->violation("reference-run-failed", ck + " outcome=" + std::to_string(R.r.outcome) + " " + R.err); return; }
   { int feasible; memcpy(&feasible, R.out.data(), sizeof feasible); H->cls(std::string("reference|") + VN[cf.variant] + (feasible ? "|feasible" : "|infeasible"));
@@ -146,7 +146,7 @@ int main(int argc, char** argv) {
   vf::Harness h("C12", argc, argv);
   H = &h;
   h.meta("level", "model_checking");
-  h.meta("rule", "stateless exploration with state matching of the real walk_descents + evaluate_descent under a cooperative scheduler (every lock, unlock, cond_wait, broadcast, create, join, exit and thread start is a scheduling point; choice = which enabled thread performs its pending operation); canonical state = per-thread (status, pending operation, call site, join target, joined flag), mutex owner, condition wait set, plus the protocol data read from the descent_trial structures (state, alpha, residual, nH1, H1, x_c) and the coordinator's x / nH1; one forked execution per transition of the reachable state graph; configurations: workers x trial steps x {first improving step at alpha=1, in the middle, never}; oracle on every complete execution: no deadlock / livelock, all threads joined once, outputs (feasible, x[F], H1, nH1, residual) bit-identical to the one-worker non-preemptive reference, ASan clean");
+  h.meta("rule", "stateless exploration with state matching of the real walk_descents + evaluate_descent under a cooperative scheduler (every lock, unlock, cond_wait, broadcast, create, join, exit and thread start is a scheduling point; choice = which enabled thread performs its pending operation); canonical state = per-thread (status, pending operation, call site, join target, joined flag), mutex owner, condition wait set, plus the protocol data read from the descent_trial structures (state, alpha, residual, nH1, H1, x_c) and the coordinator's x / nH1; one forked execution per transition of the reachable state graph; configurations: workers x trial steps x {first improving step at alpha=1, in the middle, never}, plus configurations in which one spurious return from cond_wait is injected at every possible point; oracle on every complete execution: no deadlock / livelock, all threads joined once, outputs (feasible, x[F], H1, nH1, residual) bit-identical to the one-worker non-preemptive reference, ASan clean");
   h.meta("assumption", "sequentially consistent interleavings at synchronisation operations; data-race freedom between them is checked separately by the free-running TSan pass (C12tsan spaces)");
   h.meta("assumption", "cholmod_common is shared by the workers inside an uninstrumented library: races inside CHOLMOD are outside this check");
   h.meta("extra_binaries", "C12tsan");
@@ -157,7 +157,9 @@ int main(int argc, char** argv) {
   std::vector<Config> cfs;
   std::vector<std::pair<int, int>> wn = {{1, 2}, {1, 3}, {2, 2}, {2, 3}, {2, 4}, {3, 2}, {3, 3}};
   if (h.thorough) { wn.push_back({2, 5}); wn.push_back({2, 6}); wn.push_back({3, 4}); wn.push_back({3, 6}); wn.push_back({3, 7}); }
-  for (auto& p : wn) for (int v = 0; v < 3; v++) cfs.push_back({p.first, p.second, v});
+  for (auto& p : wn) for (int v = 0; v < 3; v++) cfs.push_back({p.first, p.second, v, 0});
+  // POSIX allows cond_wait to return spuriously: the same protocol with one such return injected at every possible place
+  { std::vector<std::pair<int, int>> sp = {{1, 2}, {2, 2}}; if (h.thorough) { sp.push_back({1, 3}); sp.push_back({2, 3}); sp.push_back({2, 4}); sp.push_back({3, 2}); } for (auto& p : sp) for (int v = 0; v < 3; v += 2) cfs.push_back({p.first, p.second, v, 1}); }
   h.add_space("configs", cfs.size(), [cfs](uint64_t i) { explore(cfs[i], 400000); });
   return h.main();
 }
